@@ -86,7 +86,42 @@ def run(sid, tier='quick', props=None):
     json.dump(meta, open(os.path.join(d, 'meta.json'), 'w'), indent=1)
     return res
 
+def run_wt(sid, tier='quick', props=None):
+    """same as run, but on a scratch worktree (NEATVI_REPO) with scratch outputs, so that it can run beside other work"""
+    d = os.path.join(V, 'seeded', sid)
+    meta = json.load(open(os.path.join(d, 'meta.json')))
+    wt = '/tmp/sw_%s' % sid
+    sh('git -C %s worktree remove --force %s' % (REPO, wt)); shutil.rmtree(wt, ignore_errors=True)
+    assert sh('git -C %s worktree add -q --detach %s main' % (REPO, wt)).returncode == 0
+    res = {}
+    try:
+        r = sh(['git', 'apply', os.path.join(d, 'patch.diff')], cwd=wt)
+        if r.returncode != 0:
+            r = sh('patch -p1 < %s' % os.path.join(d, 'patch.diff'), cwd=wt)
+            assert r.returncode == 0, r.stdout
+        for prop in (props or [meta['property']]):
+            t0 = time.time()
+            r = sh(['./check', prop, '--tier', tier], cwd=V, env=dict(os.environ, NEATVI_REPO=wt, VERIF_SCRATCH=wt + '/.verif', VERIF_JOBS=os.environ.get('VERIF_JOBS', '8')))
+            viol = [l for l in r.stdout.split('\n') if l.startswith('VIOLATION') or l.startswith('  violated')]
+            res[prop] = {'exit': r.returncode, 'violations': viol[:6], 'wall_s': round(time.time() - t0), 'mode': 'worktree'}
+            print(sid, prop, tier, 'exit', r.returncode, 'in %ds' % (time.time() - t0), '(worktree)')
+            for l in viol[:4]:
+                print('    ', l)
+            if r.returncode not in (0, 1):
+                print(r.stdout[-1500:])
+    finally:
+        sh('git -C %s worktree remove --force %s' % (REPO, wt)); shutil.rmtree(wt, ignore_errors=True)
+    meta = json.load(open(os.path.join(d, 'meta.json')))
+    meta.setdefault('runs', {})[tier + '-worktree'] = res
+    det = [p for p, x in res.items() if x['exit'] == 1]
+    if det:
+        meta['detected_by'] = sorted(set((meta.get('detected_by') or []) + ['%s %s' % (p, tier) for p in det]))
+    json.dump(meta, open(os.path.join(d, 'meta.json'), 'w'), indent=1)
+    return res
+
 if __name__ == '__main__':
+    if sys.argv[1] == 'runwt':
+        run_wt(sys.argv[2], sys.argv[3] if len(sys.argv) > 3 else 'quick', sys.argv[4:] or None)
     if sys.argv[1] == 'verify':
         sys.exit(0 if verify(sys.argv[2], sys.argv[3], sys.argv[4]) else 1)
     if sys.argv[1] == 'run':
